@@ -28,15 +28,26 @@ KNOWN = [
 
 def check(pid, tier, seed):
     """standard_check with the C09 findings listed here (builders do not edit
-    the shared /verif/known_findings.json)."""
+    the shared /verif/known_findings.json).  A finding is listed only while its
+    witness still fails on the tree under test, so the check also passes once
+    fixes/C09_validator_journal_reverts.diff has been applied."""
+    import os
     import vf
+    present = list(KNOWN)
+    ok, _log, binp = vf.build_harness(SPEC["harness"], SPEC.get("hooks"))
+    if ok:
+        present = []
+        for k in KNOWN:
+            rc, _out = vf.sh([binp, "replay", "-file", os.path.join(vf.VERIF, k["witness"][0])], env=vf.GOENV, timeout=300)
+            if rc == 1:
+                present.append(k)
     orig = vf.load_known
 
     def load_known(p):
         ks = orig(p)
         if p == "C09":
             have = {k.get("key") for k in ks}
-            ks = ks + [k for k in KNOWN if k["key"] not in have]
+            ks = ks + [k for k in present if k["key"] not in have]
         return ks
     vf.load_known = load_known
     try:
@@ -46,23 +57,47 @@ def check(pid, tier, seed):
 
 
 SPEC = {
-    "level_text": "TODO",
-    "level_note": "TODO",
+    "level_text": "Coq theorem over every history of StateDB calls (any length, any nesting depth, any number of finalised transactions before the snapshot): a RevertToSnapshot to an id that stayed valid does not fail and gives back the snapshot's state on both journals - all account getters for all addresses and keys, journal, dirty sets, refund, logs, preimages, validators, index, statistics, withdraw queue, both revision lists - for all calls outside two listed finding classes (RemoveValidator, RemoveWithdrawRecords), the designed RIPEMD touch exception and Prepare, with stated side conditions on the three validator calls. The full statement is refuted on the faithful model by concrete witnesses for the two findings. The model is a hand-written mirror of statedb.go/journal.go/state_object.go/statedb_val.go (both journals, both revision lists) compared inside Coq with the real StateDB after every call of hundreds of random histories per run; an independent oracle in the harness checks the property itself on the implementation (full dump and roots of a copy at snapshot vs after revert).",
+    "level_note": "Trusted: Coq kernel + vm_compute; model fidelity rests on the differential check (checksummed full observation after every call). The read caches (live object map over the account trie, originStorage over the storage trie) are merged in the model; Go pointer aliasing is outside the value model (the delegation-slice finding is therefore implementation-only); negative balances, uint64 overflow of nonce/refund, roles outside 1..3, Copy and the staking trie are outside the model; no axioms.",
     "check": check,
     "harness": "c09",
     "hooks": ["core/state/zz_verif_c09.go"],
     "translators": [],
-    "coq_targets": ["C09/Model.vo", "C09/Proofs.vo", "C09/Properties.vo"],
+    "coq_targets": ["C09/Model.vo", "C09/ProofsMaps.vo", "C09/ProofsA.vo", "C09/ProofsV.vo", "C09/Proofs.vo", "C09/Properties.vo"],
     "properties_v": "C09/Properties.v",
-    "obligations": [],
+    "obligations": [
+        "C09_revert_restores_holds_outside", "C09_restored_account_getters", "C09_restored_account_observation",
+        "C09_restored_validator_getters", "C09_revision_lists_agree", "C09_refuted",
+        "C09_refuted_remove_validator_statistics", "C09_refuted_withdraw_queue_order", "C09_ripemd_touch_exception",
+        "C09_nonvacuous_window", "C09_nonvacuous_validator_window",
+    ],
     "cases": {"quick": 500, "thorough": 12000},
     "shard": 500,
     "search_factor": 3,
     "gen_args": [],
     "allowed_axioms": [],
     "finding_key": lambda h: h.get("what"),
-    "trusted_base": [],
-    "assumptions": [],
-    "modelled": [],
-    "partial": [],
+    "trusted_base": [
+        "Coq 8.16.1 kernel (vm_compute for the concrete witnesses, the non-vacuity examples and the model runs; no native_compute)",
+        "no axioms: every obligation is Closed under the global context",
+        "hand-written model coq/C09/Model.v of Snapshot / RevertToSnapshot / Finalise / IntermediateRoot / Commit / clearJournalAndRefund, every journal entry of both journals, the account, storage, log, preimage, refund, delegation, validator and withdraw-queue mutators",
+        "correspondence harness harness/cmd/c09 (Go, real StateDB on a memory database) + in-Coq evaluation of the model on the same histories; 61-bit checksum of the full observation after every call",
+        "add-only hook hooks/core/state/zz_verif_c09.go (reads journal lengths, revision lists, dirty sets, delegation list, validator peek)",
+        "the property oracle of the harness (rich observation incl. roots of Copy().IntermediateRoot at snapshot time vs after the revert)",
+    ],
+    "assumptions": [
+        "read caches are semantically transparent (live objects over the account trie, originStorage over the storage trie): merged in the model, exercised by the harness (every getter is called after every call)",
+        "inside the window: no Prepare; no zero-value AddBalance to the RIPEMD precompile (designed exception, witnessed by C09_ripemd_touch_exception); no RemoveValidator / RemoveWithdrawRecords (findings)",
+        "CreateValidator targets an address that is in neither the live map nor the index (or an existing validator: refused); UpdateValidator is called with oldVal = the live record, which is in the index, and the statistics are non-negative, counters < 2^64 and cover the old record; GetValidatorByMainAddr does not have to load from the trie (all hold on histories built through the API with validators read after a reopen; measured by the harness, not proved)",
+        "balances and delegation balances stay >= 0 (a negative big.Int cannot be RLP-encoded), nonce/refund below 2^64, validator roles in 1..3",
+        "Go pointer aliasing is not modelled: the journal's old records are values",
+    ],
+    "modelled": ["StateDB.Snapshot", "StateDB.RevertToSnapshot", "StateDB.Finalise", "StateDB.IntermediateRoot", "StateDB.Commit+New",
+                 "StateDB.clearJournalAndRefund", "journal.append", "journal.revert", "all 13 account journal entries", "all 5 validator journal entries",
+                 "AddBalance/SubBalance/SetBalance/SetNonce/SetCode/SetState/Suicide/CreateAccount/AddLog/AddPreimage/AddRefund/SubRefund/UpdateDelegator/Prepare",
+                 "CreateValidator/UpdateValidator/RemoveValidator/GetValidatorByMainAddr/AddWithdrawRecord/RemoveWithdrawRecords",
+                 "stateObject.finalise/updateTrie", "incr/decrValidatorsStat", "WithdrawQueue.Delete/RemoveRecords"],
+    "partial": [
+        "C09_revert_restores_holds_outside: excludes the two finding classes and carries side conditions on validator calls (see assumptions); the roots after the revert are covered by the harness oracle, in Coq only through equality of everything IntermediateRoot reads up to aeq",
+    ],
 }
